@@ -28,6 +28,20 @@ pub fn worker_prog(p: &mut Prog, rng: &mut Rng, n: u64, think: (u64, u64), allow
                 let m = super::base::ext_batch(p, rng, "", "", 1, 0, 0, true, false);
                 p.send(m);
             }
+            2 if allow_ext && rng.chance(0.4) => {
+                // two requests written at once: two simple queries, or two Sync-terminated batches
+                if rng.chance(0.5) {
+                    let a = p.select(1, 0, "");
+                    p.new_txn();
+                    let b = p.select(1, 0, "");
+                    p.send(vec![FrontMsg::Q { sql: a }, FrontMsg::Q { sql: b }]);
+                } else {
+                    let mut m = super::base::ext_batch(p, rng, "", "", 1, 0, 0, false, false);
+                    p.new_txn();
+                    m.extend(super::base::ext_batch(p, rng, "", "", 1, 0, 0, false, false));
+                    p.send(m);
+                }
+            }
             _ => {
                 let s = p.select(1, 0, "");
                 p.simple(s);
@@ -119,6 +133,22 @@ pub fn c16(rng: &mut Rng, thorough: bool, _idx: u64) -> Spec {
                 p.steps.push(Step::Wait { ev: format!("paused{}", cyc) });
             }
             p.think(rng.range(0, 20));
+            if connected_before && rng.chance(0.3) {
+                // the first messages of a batch went out before the pause (the pooler only
+                // buffers them); its Sync arrives during the pause
+                p.steps.pop();
+                p.steps.pop();
+                p.new_txn();
+                let mut m = super::base::ext_batch(&mut p, rng, "", "", 1, 0, 0, false, false);
+                while !matches!(m.last(), Some(FrontMsg::E { .. })) {
+                    m.pop();
+                }
+                let t = p.t;
+                p.steps.push(Step::Send { msgs: m, rfq: Some(0), cut: None, abort: false, txn: t });
+                p.steps.push(Step::Wait { ev: format!("paused{}", cyc) });
+                p.think(rng.range(0, 20));
+                p.send(vec![FrontMsg::S]);
+            }
             let nn = rng.range(1, 3);
             worker_prog(&mut p, rng, nn, (1, 20), true);
             p.steps.push(Step::Terminate);
